@@ -33,8 +33,8 @@ try:
         if "error" in b.stdout:
             r["error"] = "does not compile guard-off"; results[name] = r; print(name, r["error"]); sh("git -C /repo checkout -- ."); continue
         if not nosuite:
-            t = sh("cd /repo && timeout 600 cargo test --offline 2>&1 | grep -E '^test result' ")
-            r["suite"] = "pass" if ("failed" in t.stdout and all(" 0 failed" in l for l in t.stdout.splitlines())) else "FAIL"
+            t = sh("cd /repo && timeout 90 cargo test --offline 2>&1 | grep -E '^test result' ")
+            r["suite"] = "pass" if (t.stdout.count("test result") >= 3 and "failed" in t.stdout and all(" 0 failed" in l for l in t.stdout.splitlines())) else "FAIL"
         for p in (ALL if allchecks else props):
             if p not in ALL: continue
             t0 = time.time()
